@@ -10,6 +10,7 @@ var units = map[string]common.UnitFunc{
 	"c10binance":  unitC10binance,
 	"c20eddsa":    unitC20eddsa,
 	"c13adapters": unitC13adapters,
+	"c11binance":  unitC11binance,
 }
 
 func main() { common.ChildMain(units) }
